@@ -342,12 +342,48 @@ func outcomeOf(f func() ast.ItemNode) (J, ast.ItemNode) {
 	return o, it
 }
 
+// renameEvent: a string filled into a variable of an array item renames it. Renaming onto a name that another
+// variable of the item holds is refused like the constructor refuses the name twice; any other rename is a fill.
+func renameEvent(g *Gen) J {
+	f := []string{"B", "U2", "I4", "F8", "BOOLEAN", "U1"}[g.pick(6)]
+	n := []int{3, 4, 63, 64, 65, 130}[g.pick(6)]
+	vals := make([]interface{}, n)
+	for k := range vals {
+		vals[k] = g.value(f)
+	}
+	pa, pb, pc := 0, n/2, n-1
+	if g.pick(2) == 0 {
+		pa, pc = pc, pa
+	}
+	vals[pa], vals[pb], vals[pc] = "va", "vb", "vc"
+	target := []string{"va", "vc", "fresh9", "vb", "va[0]"}[g.pick(5)]
+	tm := &GItem{F: f, Vals: vals}
+	t := tm.Build()
+	sigma := map[string]interface{}{"vb": target, "unknown_key": 5}
+	sj := []interface{}{J{"k": chars("unknown_key"), "v": intJ(5)}, J{"k": chars("vb"), "v": J{"var": chars(target)}}}
+	ev := J{"ev": "fill", "tmpl": observe(t), "sigma": sj, "bad": chars(""), "nsteps": 1}
+	ev["once"], _ = outcomeOf(func() ast.ItemNode { return t.FillVariables(sigma) })
+	ev["steps"], _ = outcomeOf(func() ast.ItemNode {
+		return t.FillVariables(map[string]interface{}{"unknown_key": 5}).FillVariables(sigma)
+	})
+	dv := append([]interface{}{}, vals...)
+	dv[pb] = target
+	ev["direct"], _ = outcomeOf(func() ast.ItemNode { return (&GItem{F: f, Vals: dv}).Build() })
+	ev["msgfill"], ev["msgdirect"] = J{"outcome": "refused"}, J{"outcome": "refused"}
+	return ev
+}
+
 func driverFill(c *Ctx) {
 	for i := 0; i < c.N; i++ {
 		if !c.want(i) {
 			continue
 		}
 		g := c.gen(i)
+		if i%12 == 11 {
+			c.emit(i, renameEvent(g))
+			c.count("fill.renames")
+			continue
+		}
 		g.Ladder, g.LadderTo = 25, 129
 		tmpl := g.tree(1+g.pick(3), true)
 		direct := map[string]*GItem{}
